@@ -212,8 +212,10 @@ func (c *ECChain) UnmarshalCBOR(r io.Reader) error {
 	if err := chain.UnmarshalCBOR(r); err != nil {
 		return err
 	}
+	// Reset the receiver whatever was decoded: an empty chain decoded into a value that
+	// already holds tipsets (and possibly a memoised key) must leave none of them behind.
+	*c = ECChain{}
 	if length := len(chain); length > 0 {
-		*c = ECChain{}
 		c.TipSets = make([]*TipSet, length)
 		for i := range length {
 			c.TipSets[i] = &chain[i]
